@@ -23,6 +23,7 @@ import (
 	"lunar/engine/utils/environment"
 	"lunar/toolkit-core/clock"
 	context_manager "lunar/toolkit-core/context-manager"
+	lunar_cluster "lunar/toolkit-core/network/lunar-cluster"
 	lunarotel "lunar/toolkit-core/otel"
 	"lunar/toolkit-core/verifhook"
 
@@ -341,4 +342,15 @@ func WithLogLevel(level string, f func()) {
 		zlog.Logger = prev
 	}()
 	f()
+}
+
+// SetCluster wires the cluster-liveness component the way main() does (lunar_cluster.NewLunarCluster with the
+// gateway instance id, which main() reads from GATEWAY_INSTANCE_ID and accepts empty) - or leaves none ("none").
+func SetCluster(instanceID string) {
+	if instanceID == "none" {
+		context_manager.Get().WithClusterLiveness(nil)
+		return
+	}
+	c, _ := lunar_cluster.NewLunarCluster(instanceID)
+	context_manager.Get().WithClusterLiveness(c)
 }
